@@ -418,7 +418,7 @@ package action
 //@   props C01 C03
 //@   requires u != nil && cfgReady(u.cfg) && ledgerWF()
 //@   ensures [C01] [no-revisions-remain] err == nil && !old(u.KeepHistory) && !old(u.DryRun) && !old(u.IgnoreNotFound) ==> forall v int :: !Dex[mkkey(name, v)]
-//@   ensures [dry-run-no-mutation] old(u.DryRun) ==> Kmutated == old(Kmutated) && Dwritten == old(Dwritten)
+//@   ensures [C06] [dry-run-no-mutation] old(u.DryRun) ==> Kmutated == old(Kmutated) && Dwritten == old(Dwritten)
 
 //@ func (*Uninstall).deleteRelease
 //@   props C03
